@@ -104,6 +104,21 @@ fn run_case(pid: &str, c: &Case, out: &mut Out, stats: &mut Stats) {
         if pid == "C17" && !(s.start <= s.end && s.end <= c.input.len()) {
             out.fail(&c.id, "error-span-out-of-bounds", &format!("{} for an input of {} bytes", error_text(e), c.input.len()));
         }
+        // ... also when the source is given as bytes in another encoding: parse_bytes reports positions in its decoded copy
+        // of the text, which can lie beyond the bytes that were given (a known deviation with a class of its own)
+        if pid == "C17" && !c.fragment && c.input.chars().all(|ch| (ch as u32) < 0x80 || ((ch as u32) >= 0xA0 && (ch as u32) <= 0xFF)) && c.input.chars().any(|ch| (ch as u32) >= 0xA0)
+            && !c.input.starts_with("<?xml") {
+            let mut v: Vec<u8> = b"<?xml version=\"1.0\" encoding=\"ISO-8859-1\"?>".to_vec();
+            v.extend(c.input.chars().map(|ch| ch as u32 as u8));
+            let mut x = Xot::new();
+            if let Ok(Err(eb)) = guard(|| x.parse_bytes(&v)) {
+                stats.bump("c17.bytes.error_spans");
+                let sb = eb.span();
+                if sb.end > v.len() {
+                    out.fail(&c.id, "parse-bytes-error-span-beyond-the-bytes", &format!("{} for {} bytes of ISO-8859-1", error_text(&eb), v.len()));
+                }
+            }
+        }
     }
     match class_key.as_str() {
         "sp" => {
@@ -250,6 +265,19 @@ fn c02_extra(c: &Case, _xot: &Xot, _root: xot::Node, tt: &str, out: &mut Out, st
                 let mut v: Vec<u8> = decl_spelling(input_hash(&c.input) ^ (label.len() as u64), Some(label)).into_bytes();
                 v.extend(body.chars().map(|ch| ch as u32 as u8));
                 variants.push((if label == "ISO-8859-1" { "latin1-spelled" } else { "cp1252-spelled" }, v));
+            }
+        }
+        // ISO-8859-1 proper has the C1 controls at 0x80-0x9F (U+0085, NEL, is an XML Char); encoding_rs follows the WHATWG
+        // Encoding Standard, in which the label iso-8859-1 means windows-1252 (a known deviation with a class of its own)
+        if body.chars().all(|ch| (ch as u32) <= 0xFF) && body.chars().any(|ch| (0x80..=0x9F).contains(&(ch as u32))) {
+            let mut v: Vec<u8> = b"<?xml version=\"1.0\" encoding=\"ISO-8859-1\"?>".to_vec();
+            v.extend(body.chars().map(|ch| ch as u32 as u8));
+            let mut x = Xot::new();
+            if let Ok(Ok(root)) = guard(|| x.parse_bytes(&v)) {
+                stats.bump("c02.bytes.latin1-c1");
+                if tree_text(&x, root) != tt {
+                    out.fail(&c.id, "iso-8859-1-c1-bytes-decoded-as-windows-1252", &format!("parse_bytes of ISO-8859-1 bytes in 0x80-0x9F builds {} instead of {}", tree_text(&x, root), tt));
+                }
             }
         }
         // a UTF-8 document whose declaration names no encoding, with text further down that looks like an encoding declaration
